@@ -1429,3 +1429,56 @@ def zk_path_writers(index, kinds):
                         out.append((func, sub, kind))
                         break
     return out
+
+
+def namedtuple_fields(index, module, ctor):
+    """Field names of the namedtuple class the expression ``ctor`` names
+    (a module-level  X = collections.namedtuple('X', [...] | 'a b')  or a
+    class deriving from one), else None."""
+    name = N.txt(ctor)
+    expr = module.consts.get(name)
+    if expr is None and name in module.classes:
+        for base in module.classes[name].node.bases:
+            if isinstance(base, ast.Call):
+                expr = base
+    if not (isinstance(expr, ast.Call) and
+            callee_text(expr).endswith('namedtuple') and
+            len(expr.args) >= 2):
+        return None
+    spec = expr.args[1]
+    if isinstance(spec, (ast.List, ast.Tuple)) and all(
+            isinstance(e, ast.Constant) for e in spec.elts):
+        return [e.value for e in spec.elts]
+    if isinstance(spec, ast.Constant) and isinstance(spec.value, str):
+        return spec.value.replace(',', ' ').split()
+    return None
+
+
+def record_stores(index, func, stmt):
+    """What an assignment records, field by field: [(path text, value)].
+    A plain store gives one pair; a namedtuple / dict display / tuple value
+    gives one pair per field (T.f, T['k'], T[i])."""
+    if not (isinstance(stmt, ast.Assign) and len(stmt.targets) == 1):
+        return []
+    tgt, val = stmt.targets[0], stmt.value
+    base = N.txt(tgt)
+    out = [(base, val)]
+    if isinstance(val, ast.Call) and not val.keywords:
+        fields = namedtuple_fields(index, func.module, val.func)
+        if fields and len(fields) == len(val.args):
+            for idx, (fld, arg) in enumerate(zip(fields, val.args)):
+                out.append(('%s.%s' % (base, fld), arg))
+                out.append(('%s[%d]' % (base, idx), arg))
+    elif isinstance(val, ast.Call) and val.keywords and not val.args:
+        fields = namedtuple_fields(index, func.module, val.func)
+        if fields:
+            for kw in val.keywords:
+                out.append(('%s.%s' % (base, kw.arg), kw.value))
+    elif isinstance(val, ast.Dict):
+        for key, item in zip(val.keys, val.values):
+            if isinstance(key, ast.Constant):
+                out.append(('%s[%r]' % (base, key.value), item))
+    elif isinstance(val, ast.Tuple):
+        for idx, item in enumerate(val.elts):
+            out.append(('%s[%d]' % (base, idx), item))
+    return out
